@@ -282,7 +282,10 @@ class ParseContext(ParserEngine):
         try:
             return exp(self)
         except TypeError as e:
-            if "arguments" in str(e):
+            # NOTE only when the call itself could not bind its arguments,
+            #   not for a TypeError raised by the code that was called
+            tb = e.__traceback__
+            if tb and tb.tb_next is None and "arguments" in str(e):
                 return boundcall(exp, {}, self)
             raise
 
